@@ -356,8 +356,9 @@ def run(ctx):
     hists = [list(ops) for _, ops in G.CORPUS]
     names = [n for n, _ in G.CORPUS]
     ncorpus = len(hists)
-    for _ in range(nhist):
-        hists.append(G.gen_history(r, maxops))
+    for i in range(nhist):
+        # every other history is a "session": the same compiled stylesheets / parsed sources used again and again
+        hists.append(G.gen_session(r, maxops) if i % 2 else G.gen_history(r, maxops))
         names.append("gen")
     if ctx.thorough:
         # small-scope exhaustive: all histories of <= 4 ops over a compact alphabet, each followed by an observer
